@@ -1,6 +1,6 @@
 ------------------------------ MODULE Conf_SM4 ------------------------------
 EXTENDS SM4, Json, IOUtils
-VARIABLES l, inst
+VARIABLES tpos, inst
 Rec == ndJsonDeserialize(IOEnv.TRACE)
 OSched(t, k, x) == SM4Sched(t, k, x)
 OEnc(ks, b) == SM4Enc(ks, b)
